@@ -287,6 +287,12 @@ class CSSRuleRules(CSSRule):
             self._log.error(f'{rule}: Not a CSSRule: {self.__class__.__name__}')
             return False, False
 
+        # a rule object brought from elsewhere may use namespaces which the
+        # sheet does not declare
+        sheet = self.parentStyleSheet
+        if sheet is not None and not sheet._declaresNamespacesOf(rule):
+            return False, False
+
         # a rule cannot contain itself
         ancestor = self
         while ancestor is not None:
